@@ -11,9 +11,9 @@ CHECKS = {
     "C02": ("contract on dot_bracket/convert_to_dot_bracket + exact branch-and-bound optimiser as reference model", "4.C02",
             "The objective value of the notation the real MILP path returns is compared (integers) with an independent exact optimum per conflict component, for every pairing up to N and random multi-stem knots where FCFS is sub-optimal; the same pairing reached through other constructors (parsed from non-optimal notations / BPSEQ text), a structure with more than a thousand stems, and 30 mutually crossing stems through the MILP path."),
     "C03": ("contract on annotator.find_pairs + dense O(n^2) H-bond/edge/torsion reference model with margins", "4.C03",
-            "Every reported pair and every candidate edge combination of every observed execution (corpus, rigid/jitter/thinning perturbations, threshold-sweeping two-residue placements) is judged by an independent dense evaluator; quantities within 1e-6 of a threshold are undecided; all NMR models in one structure with an explicit model; texts with nearly superposed copies of residues, and texts whose PDB fields are filled to their edges, read by the real reader and compared with the annotation of the written atoms; threshold-grazing placements (one decision quantity bisected to +-2e-3..2e-5 of its limit, also 9000 A from the origin); more than 65 535 residues in one model; the chain table-level reader -> fit_to_pdb -> write_pdb -> residue-level reader before annotation."),
+            "Every reported pair and every candidate edge combination of every observed execution (corpus, rigid/jitter/thinning perturbations, threshold-sweeping two-residue placements) is judged by an independent dense evaluator; quantities within 1e-6 of a threshold are undecided; all NMR models in one structure with an explicit model; texts with nearly superposed copies of residues, and texts whose PDB fields are filled to their edges, read by the real reader and compared with the annotation of the written atoms; threshold-grazing placements (one decision quantity bisected to +-2e-3..2e-5 of its limit, also 9000 A from the origin); more than 65 535 residues in one model; the chain table-level reader -> fit_to_pdb -> write_pdb -> residue-level reader before annotation; PDB texts whose serials pass 99999; mmCIF with a canonical sequence and uninformative component names; chain names differing by letter case."),
     "C04": ("contract on annotator.find_stackings + dense stacking reference model with margins", "4.C04",
-            "Soundness and completeness of the stacking list against an O(n^2) evaluation of centroid distance, inter-normal angle and offset angle; placements sweep each quantity across its threshold; the list must be ordered as the residues are; CLI CSV written onto a reused path; files with filled fields against the written atoms; threshold-grazing placements on centroid distance, normal and offset angles."),
+            "Soundness and completeness of the stacking list against an O(n^2) evaluation of centroid distance, inter-normal angle and offset angle; placements sweep each quantity across its threshold; the list must be ordered as the residues are; CLI CSV written onto a reused path; files with filled fields against the written atoms; threshold-grazing placements on centroid distance, normal and offset angles; PDB texts whose ATOM serials pass 99999 half-way; single-chain mmCIF with the canonical sequence whose first/last residues carry uninformative component names."),
     "C05": ("metamorphic twins through the real annotator, outputs compared modulo renaming, margins measured", "4.C05",
             "Each case and its presentation twin (rigid motion, atom order, order-preserving relabelling, PDB vs mmCIF text of the same table) run through extract_secondary_structure; lists and 2D texts must be equal; pairs with a decision quantity within 1e-6 of a threshold in either member are excluded by measurement; hostile bases (insertion codes, reversed orders, negative numbers) and process-history families (other conformations with the same identifiers annotated first) under every twin kind; format twins with gap detection and with generated alternate conformers whose best-occupied conformer is not the first one; a corpus entry deposited in both formats through library and CLI; the file itself in another frame (chains of superposed atoms); field-edge and atom-on-origin format twins; format twins written by the library for a selection of ensemble models; an eight-copy assembly under a rigid motion."),
     "C06": ("contracts on the Mapping2D3D outputs + independent numbering/canonical-conflict/row decoder model", "4.C06",
@@ -25,15 +25,15 @@ CHECKS = {
     "C09": ("round-trip twins through parser_v2 + 80-column grammar and record automaton on every write_pdb result", "4.C09",
             "Four write/read paths per table compared field by field with the abstract table; every written PDB document is parsed by an independent column grammar and a record-sequence automaton; a third of the round trips use the other documented input/output object kinds (StringIO, text/binary handles, paths)."),
     "C10": ("contract on fit_to_pdb + independent feasibility test + bijection check + write/read back", "4.C10",
-            "Tables within and beyond PDB limits (incl. >62 chains, >9999 residues per chain, >99999 atoms in thorough, residues with non-contiguous records, derived/subset frames) are fitted; result judged for limits, field preservation, one-to-one renaming, refusal iff infeasible, and survival of write_pdb/parse_pdb_atoms."),
+            "Tables within and beyond PDB limits (incl. >62 chains, >9999 residues per chain, >99999 atoms in thorough, residues with non-contiguous records, derived/subset frames) are fitted; result judged for limits, field preservation, one-to-one renaming, refusal iff infeasible, and survival of write_pdb/parse_pdb_atoms; chain names that are runs of consecutive one-character ids (AB, Za, 12)."),
     "C11": ("contracts on find_pairs/find_stackings + frozen Saenger/Zirbel tables + re-read CSV/JSON", "4.C11",
-            "Well-formedness clauses (duplicates, self, membership, orientation, sortedness, Saenger, BPh/BR donor contact and class, one class per pair) judged on every observed annotation including all NMR models, crowded structures and nucleotides listed in two parts; CSV/JSON written onto paths that already hold another result."),
+            "Well-formedness clauses (duplicates, self, membership, orientation, sortedness, Saenger, BPh/BR donor contact and class, one class per pair) judged on every observed annotation including all NMR models, crowded structures and nucleotides listed in two parts; CSV/JSON written onto paths that already hold another result; chain names whose order depends on letter case; annotations imported from FR3D listings (short and nine-field unit ids, insertion codes) judged for participants, self-joins and repeats."),
     "C12": ("recorded call histories on object pools checked step by step against a fresh-object model", "4.C12",
             "History monitor: after each public call on any pool object, all objects must still print/pair as at creation and the answer must equal a fresh copy's answer; all 2-step orders on hostile structures + random histories; a homologous sibling queried first; molecules of > 1000 nucleotides / > 100 stems."),
     "C13": ("fault/configuration injection at the PuLP boundary; complete matrix enumeration", "4.C13",
             "All 13 cells of {HiGHS-stub,CBC,none} x {ok,raise,4 bad statuses} x both entry points are enumerated for every knotted input; inputs are sampled. A missing cell makes the run inconclusive. Every knotted matching on up to 8 positions through both fallback routes; 11-12 bracket levels under every cell; a derived structure requested first; hundreds of regions open at once; optimal answers with unset or noisy zero variables; a not-solved answer carrying an incumbent. The notation asked for through the 3D mapping under every cell, and the CLI's stdout under three log levels in fresh interpreters."),
     "C14": ("recorded outputs of fresh interpreters under different hash seeds, offline byte comparison", "4.C14",
-            "Every tool/library output for each (tool, options, input) triple is recorded under 3 (quick) / 6 (thorough) hash seeds plus an in-process repetition and compared byte for byte; several related inputs handled in a row by one interpreter must print what a fresh interpreter prints for each; external pair lists with same-rank conflicts through the adapter; an input whose base type cannot be decided from its atoms inside a batch; format conversion in a row; FR3D listings with repeated rows; a nearly identical input right after the original; eight crossing helices (8! notations); a chain numbered from zero with competing pairs; the witness is the first differing line."),
+            "Every tool/library output for each (tool, options, input) triple is recorded under 3 (quick) / 6 (thorough) hash seeds plus an in-process repetition and compared byte for byte; several related inputs handled in a row by one interpreter must print what a fresh interpreter prints for each; external pair lists with same-rank conflicts through the adapter; an input whose base type cannot be decided from its atoms inside a batch; format conversion in a row; FR3D listings with repeated rows; a nearly identical input right after the original; eight crossing helices (8! notations); a chain numbered from zero with competing pairs; chains named A / a numbered alike with a nucleotide paired into both; the witness is the first differing line."),
     "C15": ("differential twins: 2 reader generations x 2 formats compared as maps with each other and the abstract table", "4.C15",
             "Residue sets, atom sets, coordinates, pairwise connectivity (also exactly on the 2.4 A limit, where the readers must agree with each other), connected segments and |chi| from four readings of the same single-conformer table must agree; zero occupancies, five-digit serials, caller-side reordering of atom lists, asterisk spelling of primes, residues lacking one atom of the chi definition (the same residues must have a chi in every reading), nucleic-acid-only readings."),
     "C16": ("contract on all_dot_brackets + Grundy-colouring enumerator as reference model", "4.C16",
@@ -41,7 +41,7 @@ CHECKS = {
     "C17": ("contract on find_clashes (all 32 option combinations) + O(n^2) reference + in-process CLI with parsed stdout/CSV", "4.C17",
             "Set equality of the clash list with a dense enumeration for every option combination on corpus, scaled/jittered and synthetic partial-occupancy structures; printed maxima (within a chain and between chains, chains in either order) and CSV rows compared with the list; residues sharing a position, superposed atoms; the tool's list against the library's list for the file read the default way; deposited files as they are (ligands outside polymer entities, no experiment categories, PDB format); the list for the written atoms (occupancy spellings); every atom listed with its own residue; CSV paths that already hold a result; library-converted mmCIF with insertion codes."),
     "C18": ("contracts on both torsion functions judging every call against an independent dihedral + constructive builder", "4.C18",
-            "Every call of either torsion implementation made by any workload (builder quadruples under rigid motions, reversal, mirroring; corpus chi/backbone torsions via Residue3D.chi, the annotator and Structure.torsion_angles) is compared with an IUPAC reference validated against a constructive builder in the same run; chi read after a full 2D analysis of the same object must equal the dihedral of the atoms' own coordinates; chi of re-emitted tables with shuffled item order, stripped bases, integer points, PDB fields filled to their edges, residues of unknown base type; bond angles to within 0.006 degrees of linear."),
+            "Every call of either torsion implementation made by any workload (builder quadruples under rigid motions, reversal, mirroring; corpus chi/backbone torsions via Residue3D.chi, the annotator and Structure.torsion_angles) is compared with an IUPAC reference validated against a constructive builder in the same run; chi read after a full 2D analysis of the same object must equal the dihedral of the atoms' own coordinates; chi of re-emitted tables with shuffled item order, stripped bases, integer points, PDB fields filled to their edges, residues of unknown base type; bond angles to within 0.006 degrees of linear; every backbone torsion the table reports compared with the torsion over atoms bonded in sequence; components named after another base."),
     "C19": ("contracts on the FR3D/DSSR importers + regular-expression reference of the label language", "4.C19",
             "Label space exhaustive to length 4 (quick) / 6 over a reduced alphabet (thorough); generated listings and DSSR documents judged against a unit-id grammar and resolvable-name oracle."),
     "C20": ("contracts on copy_from_to/replace_value + in-process CLI twin, frames compared by an independent CIF tokenizer", "4.C20",
